@@ -4,9 +4,10 @@ import WebPkg.Driver.OpsSH
 import WebPkg.Driver.OpsSxg
 import WebPkg.Driver.OpsBundle
 import WebPkg.Driver.OpsIB
+import WebPkg.Driver.OpsBSig
 open WebPkg.Driver
 
-def handlers : List (String → List String → Option String) := [handleCbor, handleMice, handleSH, handleSxg, handleBundle, handleIB]
+def handlers : List (String → List String → Option String) := [handleCbor, handleMice, handleSH, handleSxg, handleBundle, handleIB, handleBSig]
 
 def dispatch (op : String) (args : List String) : String :=
   match handlers.findSome? (fun h => h op args) with
